@@ -756,6 +756,11 @@ class Interp:
             for k in cell:
                 if k not in ('len', 'arr', 'ek'):
                     st.heap[r][k] = cell[k]
+        elif r.kind == 'rows':
+            nm = st.fresh_name((r.name or 'm') + '_h')
+            nc = dict(cell)
+            nc['rows'] = z3.Array(nm + '_r', z3.IntSort(), z3.ArraySort(z3.IntSort(), z3.RealSort()))
+            st.heap[r] = nc
         elif r.kind == 'clist':
             st.heap[r] = [self.havoc_like(x, (r.name or 'l') + '_%d' % k) for k, x in enumerate(cell)]
         elif r.kind == 'obj':
